@@ -179,7 +179,9 @@ func (api *API) mapEncodeStructFields(
 			fieldType := sField.fType
 			if fieldValue.Kind() == reflect.Ptr {
 				if fieldValue.IsNil() {
-					continue
+					// the fields of an embedded struct are always expected by the decoder,
+					// so a nil embedded pointer can't be serialized (same as any other non-optional nil pointer).
+					return ierrors.Errorf("unexpected nil pointer for embedded struct %s", sField.name)
 				}
 				fieldValue = fieldValue.Elem()
 				fieldType = fieldType.Elem()
